@@ -164,7 +164,18 @@ def gen_grammar(r, nnt=None, nt_=None, err_prob=0.25, maxrules=3, strict=None, w
         elif shape < 0.28 and len(nts) >= 2:
             a, b = nts[0], nts[1]
             rules += [(a, [b, a, r.choice(tn)]), (b, [])]          # hidden left recursion
-        elif shape < 0.40 and len(nts) >= 3:
+        elif shape < 0.37 and len(nts) >= 3 and len(tn) >= 3:
+            # chain of unit rules whose members occur in different right contexts: the dynamic
+            # lookahead contexts have to travel through several situations of one set
+            ch = nts[:]; r.shuffle(ch)
+            ctxs = tn[:]; r.shuffle(ctxs)
+            top = [(nts[0], [x, ctxs[i % len(ctxs)]]) for i, x in enumerate(ch) if x != nts[0]]
+            r.shuffle(top)
+            rules = top + [(nts[0], [tn[0]])] if r.random() < 0.5 else top
+            links = [(y, [x]) for x, y in zip(ch, ch[1:]) if y != nts[0]]
+            if r.random() < 0.5: links = links[::-1]
+            rules += links + [(ch[0], [r.choice(tn)])] + [(x, [r.choice(tn)]) for x in ch[1:] if r.random() < 0.5]
+        elif shape < 0.42 and len(nts) >= 3:
             # nullable chain: nullability has to travel through several nonterminals
             ch = nts[:]; r.shuffle(ch)
             for x, y in zip(ch, ch[1:]): rules.append((x, [y]))
@@ -320,8 +331,9 @@ def cfg_sweep(r, focus):
         return [dict(la=r.choice([0, 1, 2]), one=r.choice([0, 1]), cost=r.choice([0, 0, 0, 1]), rec=1, match=m)
                 for m in r.sample([1, 2, 3, 3, 4, 5], 3)]
     if focus == 'C09':
-        return [dict(la=la, one=one, cost=cost, rec=0, debug=0) for la in (-3, 0, 1, 2, 7)] + \
-               [dict(la=r.choice([0, 1, 2]), one=one, cost=cost, rec=0, debug=d) for d in r.sample([1, 2, 3, 4, 5, 6, -1], 2)]
+        rec = r.choice([0, 0, 1]); m = r.choice([1, 2, 3, 3])
+        return [dict(la=la, one=one, cost=cost, rec=rec, match=m, debug=0) for la in (-3, 0, 1, 2, 7)] + \
+               [dict(la=r.choice([0, 1, 2]), one=one, cost=cost, rec=rec, match=m, debug=d) for d in r.sample([1, 2, 3, 4, 5, 6, 7, -1], 3)]
     return [dict(la=r.choice([0, 1, 2]), one=one, cost=cost, rec=0)]
 
 
@@ -329,7 +341,7 @@ def gen_parse_cases(seed, count, focus='C01', maxlen=7, inputs_per=3):
     r = random.Random(seed)
     cases = []
     for i in range(count):
-        g = gen_grammar(r, err_prob=0.15 if focus not in ('C06', 'C07', 'C08') else 0.6)
+        g = gen_grammar(r, err_prob=0.6 if focus in ('C06', 'C07', 'C08') else 0.35 if focus == 'C09' else 0.15)
         ins = gen_inputs(r, g, inputs_per, maxlen)
         # every input gets its own sweep
         lines = None
@@ -348,7 +360,7 @@ def gen_parse_cases(seed, count, focus='C01', maxlen=7, inputs_per=3):
                     if k in cfg and cfg[k] != cur[k]:
                         op('set 0 %s %d' % (k, cfg[k]))
                         cur[k] = max(0, min(2, cfg[k])) if k == 'la' else cfg[k]
-                op(('parse 0 %s %s 15 %s' % (cfg.get('alloc', 'user'), cfg.get('free', 'user'), codes)).strip())
+                op(('parse 0 %s %s 31 %s' % (cfg.get('alloc', 'user'), cfg.get('free', 'user'), codes)).strip())
         if focus == 'C13':
             nparse = len([l for l in c if l.startswith('op ') and l.split()[2] == 'parse'])
             slots = list(range(nparse)); r.shuffle(slots)
@@ -465,6 +477,14 @@ def gen_history_cases(seed, count, maxops=40):
     cases = []
     for i in range(count):
         pool = [gen_grammar(r, err_prob=0.2) for _ in range(2)]
+        if r.random() < 0.15:
+            # an object with more than 64 terminals next to small ones (terminal sets of different width)
+            k = r.choice([66, 70, 130])
+            bt = [('t%d' % j, 100 + j) for j in range(k)]
+            hi = [bt[j][0] for j in r.sample(range(60, k), 3)]
+            pool[r.randrange(2)] = Grammar(bt, [('S', 'l', 1, ['S', 'I'], [0, 1]), ('S', None, 0, ['I'], [0])] +
+                                           [('I', 'i%d' % j, 1, [h, bt[r.randrange(k)][0]], [0, 1]) for j, h in enumerate(hi)] +
+                                           [('I', None, 0, [hi[0]], [0])], True)
         pool += [bad_variant(r, pool[0]), gen_def_grammar(r)]
         lines = ['case H-%d-%d history' % (seed, i)]
         for gid, g in enumerate(pool): lines += g.text(gid)
